@@ -28,7 +28,7 @@ Definition out_eqb (a b : out) : bool :=
 Definition model_outs (c : case) : list out :=
   let tree := tree_of (c_blocks c) in
   match tree (c_genesis c) with
-  | Some g => run tree (c_W c) (sys0 tree (c_W c) g) (c_ops c)
+  | Some g => run vf_replay tree (c_W c) (sys0 tree (c_W c) g) (c_ops c)
   | None => []
   end.
 
